@@ -283,6 +283,7 @@ class H5Writer:
             if values is None:
                 return
 
+            kwargs = {}
             if isinstance(values, np.ndarray):
                 if np.issubdtype(values.dtype, np.floating):
                     values = values.astype(np.float32)
@@ -290,14 +291,16 @@ class H5Writer:
                     if len(values) > 0:
                         values[np.isnan(values)] = FLOAT_NDV
 
-                if np.issubdtype(values.dtype, np.str_):
+                if np.issubdtype(values.dtype, np.str_) or values.dtype == object:
                     values = values.astype(h5py.special_dtype(vlen=str))
+                    kwargs["dtype"] = h5py.special_dtype(vlen=str)
 
             attr_handle.create_dataset(
                 name,
                 data=values,
                 compression="gzip",
                 compression_opts=9,
+                **kwargs,
             )
 
     @classmethod
